@@ -84,6 +84,9 @@ pub enum Recipient {
     User(u8),
     App,
     Garbage,
+    /// the token service itself
+    Service,
+    GasService,
 }
 
 #[derive(Serialize, Deserialize, Clone, Debug, PartialEq, Eq, Hash)]
